@@ -125,9 +125,9 @@ def gen_hist2(rng, max_steps=8):
     steps = []
     for _ in range(rng.randint(2, max_steps)):
         o, j = rng.randrange(nobj), rng.randrange(nobj)
-        k = rng.choice(['append_ref', 'iadd_ref', 'add_ref', 'new_from', 'new_with_header', 'append_lines_of', 'append', 'trim', 'indent', 'indent', 'setlines', 'obs'])
+        k = rng.choice(['append_ref', 'iadd_ref', 'add_ref', 'new_from', 'new_with_header', 'clone', 'clone', 'append_lines_of', 'append', 'append', 'trim', 'indent', 'indent', 'setlines', 'obs'])
         st = {'k': k, 'o': o}
-        if k in ('append_ref', 'iadd_ref', 'add_ref', 'append_lines_of'):
+        if k in ('append_ref', 'iadd_ref', 'add_ref', 'append_lines_of', 'clone'):
             st['j'] = j
         elif k == 'new_from':
             st['j'] = j
@@ -321,6 +321,9 @@ def run_text_op(case):
                 objs[i].append(objs[st['j']].lines)
             elif k == 'new_with_header':
                 objs[i] = TextBlock(objs[st['j']], header=objs[st['h']])
+            elif k == 'clone':
+                import copy
+                objs[i] = copy.deepcopy(objs[st['j']])
             elif k == 'append':
                 objs[i].append(to_py(st['c']))
             elif k == 'trim':
